@@ -6,7 +6,7 @@ import ast
 import itertools
 
 from ..alpha import Loc, amatch
-from ..const import Folder
+from ..const import UNKNOWN, Folder
 from ..flow import flat_guards
 from ..model import FuncInfo, Model, dotted, norm, walk_no_nested
 from ..report import Run
@@ -429,8 +429,27 @@ def check(model: Model, run: Run) -> None:
     # prefix built from neighbors
     ptxt = norm(exa.node)
     star = {dotted(n.targets[0]) for n in walk_no_nested(exa.node) if isinstance(n, ast.Assign) and isinstance(n.value, ast.Constant) and n.value.value == 'peer *'}
-    each = {dotted(n.targets[0]) for n in walk_no_nested(exa.node) if isinstance(n, ast.Assign) and amatch("', '.join((f'peer {V_n}' for V_n in options.neighbors))", n.value) is not None}
-    run.check(bool(star & each), exa.qualname, 'selector prefix: peer <neighbor>[, peer <neighbor>] or peer *', exa.loc(), 'selector syntax')
+    # the selector is evaluated for one, two and three neighbors: `peer <n>`, or ONE bracketed selector whose tokens stand
+    # apart (`peer [ a , b ]`, what dispatch.common._parse_bracket_selector reads) - `peer a, peer b` is not a v6 command
+    from ..evalfn import eval_function
+
+    pre = sorted(star)
+    good = bool(pre)
+    shown = []
+    for neighbors in (['192.0.2.1'], ['192.0.2.1', '192.0.2.2'], ['192.0.2.1', '2001:db8::2', '192.0.2.3']):
+        envx: dict = {}
+        eval_function(folder, exa, {'options': {'neighbors': neighbors}}, env_out=envx, outcomes=True, body=_prefix_statements(exa, pre[0] if pre else '?'))
+        got = envx.get(pre[0]) if pre else None
+        shown.append(got)
+        toks = got.split() if isinstance(got, str) else []
+        if len(neighbors) == 1:
+            good = good and toks == ['peer', neighbors[0]]
+        else:
+            want = ['peer', '[']
+            for k, nb in enumerate(neighbors):
+                want += ([','] if k else []) + [nb]
+            good = good and toks == want + [']']
+    run.check(good, exa.qualname, 'selector prefix for 1 / 2 / 3 neighbors: %s' % shown, exa.loc(), 'the v6 dispatcher reads `peer <address>` or one bracketed list `peer [ a , b ]` (tokens apart); `peer a, peer b announce ...` is answered "unknown command: peer" and the route is never announced')
     # metric / state options
 
     def _xexp(v: ast.AST) -> ast.AST:
@@ -516,3 +535,20 @@ def check(model: Model, run: Run) -> None:
         except _Unk as e:
             run.cannot('exabgp(): as-path definition not understood: %s' % e)
         run.check(okap, exa.qualname, 'as-path = <state>_as_path, --as-path only when the state has none (%s)' % seenap, exa.loc(), 'with both --as-path and a state-specific option the announcement of that state must carry the state-specific path')
+
+
+def _prefix_statements(exa, name: str) -> list[ast.stmt]:  # noqa: ANN001
+    """the statement(s) of exabgp() that bind the selector prefix: the first top-level statement (of the function or of a
+    loop body in it) that assigns it, with its branches"""
+    def find(body: list[ast.stmt]) -> list[ast.stmt] | None:
+        for st in body:
+            if any(isinstance(x, ast.Assign) and any(isinstance(t, ast.Name) and t.id == name for t in x.targets) for x in ast.walk(st)):
+                if isinstance(st, (ast.If, ast.Assign)):
+                    return [st]
+                for f in ('body', 'orelse'):
+                    r = find(getattr(st, f, []) or [])
+                    if r:
+                        return r
+        return None
+
+    return find(exa.node.body) or []
